@@ -104,9 +104,9 @@ func runSchedOnce(sc schedScenario, prefix []int) *schedOutcome {
 		"resp.frame": true, "pub.select": true, "pub.sent": true, "pub.ctx": true, "rcvf.select": true, "rcvf.value": true, "rcvf.ctx": true, "rcvf.done": true, "rcvf.closed": true,
 		"free.enter": true, "close.enter": true, "seterr.enter": true, "seterr.lock": true, "seterr.close": true}
 	sch.ParkIf = func(point, key string) bool { return interesting[point] }
-	rpc.VerifTrace, rpc.VerifYield = sch.Trace, sch.Yield
-	utils.VerifTrace, utils.VerifYield = sch.Trace, sch.Yield
-	defer func() { rpc.VerifTrace, rpc.VerifYield, utils.VerifTrace, utils.VerifYield = nil, nil, nil, nil }()
+	rpc.SetVerifHooks(sch.Trace, sch.Yield)
+	utils.SetVerifHooks(sch.Trace, sch.Yield)
+	defer func() { rpc.SetVerifHooks(nil, nil); utils.SetVerifHooks(nil, nil) }()
 	_ = tracked
 	_ = tmu.Lock
 	type res struct {
@@ -433,5 +433,114 @@ func runSchedSuite(rep *Report, tier string, seed int64, prop string) {
 				map[string]any{"suite": "sched", "scenario": sc, "schedule": lastRun, "cmd": fmt.Sprintf("bin/harness -sub sched %d 16 '%s'", i, strings.Trim(lastRun, "[]"))})
 		}
 	}
+	// ---- shutdown stress in a child process: many calls in flight (using the link's own context and
+	// children of it) when the link context is cancelled / the read side fails; the child must survive
+	if prop == "C05" {
+		rounds := 400
+		if tier == "thorough" {
+			rounds = 6000
+		}
+		cmd := exec.Command(os.Args[0], "-sub", "shutdown", fmt.Sprint(rounds))
+		outB, err := cmd.Output()
+		n := 0
+		for _, l := range strings.Split(string(outB), "\n") {
+			if strings.HasPrefix(l, "BAD ") {
+				rep.addViolation("property", "C05:shutdown:"+l[4:], "shutdown stress: "+l[4:], map[string]any{"suite": "C05-shutdown", "cmd": fmt.Sprintf("bin/harness -sub shutdown %d", rounds)})
+			}
+			fmt.Sscanf(l, "DONE rounds=%d", &n)
+		}
+		rep.Evaluations += n
+		rep.Extra["shutdown_stress_rounds"] = n
+		if err != nil || !strings.Contains(string(outB), "DONE ") {
+			stderr := ""
+			if ee, ok := err.(*exec.ExitError); ok {
+				stderr = firstLine(string(ee.Stderr))
+			}
+			rep.addViolation("property", "C05:shutdown:crash:"+stderr, "shutdown stress: the process died while a link with calls in flight was shut down: "+stderr,
+				map[string]any{"suite": "C05-shutdown", "cmd": fmt.Sprintf("bin/harness -sub shutdown %d", rounds)})
+		}
+	}
 	_ = seed
+}
+
+// subShutdown: child. Each round: 48 calls in flight against a peer that never answers (contexts: the
+// link's own, a child of it, and independent ones that are cancelled concurrently), then the link is
+// shut down by cancelling its context or failing its reads. A crash is the child's exit status.
+func subShutdown(args []string) {
+	rounds := 100
+	fmt.Sscan(args[0], &rounds)
+	w := bufio.NewWriter(os.Stdout)
+	defer w.Flush()
+	codec := jsonRaw()
+	for r := 0; r < rounds; r++ {
+		reg := rpc.NewRegistry[echoRemote, json.RawMessage](&struct{}{}, nil)
+		outReq, outRes, inReq, inRes := NewQueue(), NewQueue(), NewQueue(), NewQueue()
+		linkCtx, linkCancel := context.WithCancel(context.Background())
+		linkErr := make(chan error, 1)
+		go func() {
+			linkErr <- reg.LinkMessage(linkCtx,
+				func(b json.RawMessage) error { return outReq.Put(b) }, func(b json.RawMessage) error { return outRes.Put(b) },
+				func() (json.RawMessage, error) { b, e := inReq.Get(); return b, e }, func() (json.RawMessage, error) { b, e := inRes.Get(); return b, e },
+				codec.Marshal, codec.Unmarshal, nil)
+		}()
+		var remote echoRemote
+		waitFor(func() bool {
+			ok := false
+			reg.ForRemotes(func(id string, rm echoRemote) error { remote = rm; ok = true; return nil })
+			return ok
+		})
+		const n = 48
+		var wg sync.WaitGroup
+		cancels := make([]context.CancelFunc, 0, n)
+		for c := 0; c < n; c++ {
+			var ctx context.Context
+			switch c % 3 {
+			case 0:
+				ctx = linkCtx
+			case 1:
+				cctx, cancel := context.WithCancel(linkCtx)
+				ctx = cctx
+				cancels = append(cancels, cancel)
+			default:
+				cctx, cancel := context.WithCancel(context.Background())
+				ctx = cctx
+				cancels = append(cancels, cancel)
+			}
+			wg.Add(1)
+			go func() {
+				defer wg.Done()
+				remote.Echo(ctx, c, "x")
+			}()
+		}
+		// wait until the requests are out
+		waitFor(func() bool { return outReq.Len() >= n })
+		go func() {
+			for _, c := range cancels {
+				c()
+			}
+		}()
+		if r%2 == 0 {
+			linkCancel()
+		} else {
+			inRes.Close(errors.New("read fails"))
+		}
+		done := make(chan struct{})
+		go func() { wg.Wait(); close(done) }()
+		select {
+		case <-done:
+		case <-time.After(watchdog):
+			fmt.Fprintf(w, "BAD calls in flight did not all return after the link was shut down (round %d)\n", r)
+			w.Flush()
+		}
+		select {
+		case <-linkErr:
+		case <-time.After(watchdog):
+			fmt.Fprintf(w, "BAD Link did not return (round %d)\n", r)
+		}
+		linkCancel()
+		for _, q := range []*Queue{outReq, outRes, inReq, inRes} {
+			q.Close(nil)
+		}
+	}
+	fmt.Fprintf(w, "DONE rounds=%d\n", rounds)
 }
